@@ -157,6 +157,39 @@ class Unit:
         return None
 
 
+_TREE_HASH = None
+
+
+def tree_hash():
+    """content hash of every file the extractor can read; computed once per process"""
+    global _TREE_HASH
+    if _TREE_HASH is None:
+        h = hashlib.sha1()
+        roots = [os.path.join(REPO, 'src'), os.path.join(REPO, '_build', 'src'), os.path.join(VERIF, 'tu'), os.path.join(VERIF, 'tools', 'sfx')]
+        for root in roots:
+            for dp, dn, fn in sorted(os.walk(root)):
+                dn.sort()
+                if '/CMakeFiles' in dp or '/tests/' in dp + '/':
+                    continue
+                for f in sorted(fn):
+                    if f.endswith(('.h', '.hpp', '.cpp', '.cc', '.hh', '.ll', '.yy', '.def', '.inc')):
+                        p = os.path.join(dp, f)
+                        try:
+                            with open(p, 'rb') as fh:
+                                h.update(p.encode())
+                                h.update(hashlib.sha1(fh.read()).digest())
+                        except OSError:
+                            pass
+        _TREE_HASH = h.hexdigest()[:16]
+        # drop caches of other trees (keep the two most recent)
+        croot = os.path.join(VERIF, 'build', 'cache')
+        if os.path.isdir(croot):
+            olds = sorted((d for d in os.listdir(croot) if d != _TREE_HASH), key=lambda d: os.path.getmtime(os.path.join(croot, d)))
+            for d in olds[:-2]:
+                shutil.rmtree(os.path.join(croot, d), ignore_errors=True)
+    return _TREE_HASH
+
+
 _MEMO = {}
 
 
@@ -187,8 +220,25 @@ def extract(jobs, workers=16):
         if _OVERLAY is not None:
             if any(not r.endswith('.cpp') for r in _OVERLAY.edits) or job[0].startswith(_OVERLAY.dir):
                 ov = tuple(sorted((r, hashlib.sha1(c.encode()).hexdigest()) for r, c in _OVERLAY.edits.items()))
-        keys.append((job[0] if not (_OVERLAY and job[0].startswith(_OVERLAY.dir)) else 'ov', job[1], job[2],
+        keys.append((job[0] if not (_OVERLAY and job[0].startswith(_OVERLAY.dir)) else 'ov:' + os.path.relpath(job[0], _OVERLAY.dir), job[1], job[2],
                      tuple(f for f in job[3] if not (_OVERLAY and _OVERLAY.dir in f)), job[5], job[6], job[7], ov))
+    # on-disk cache of extracted facts, keyed by the content hash of EVERYTHING the extractor can read (all of /repo/src,
+    # the generated headers, the verification-owned units, the extractor itself) plus the job: the current source is
+    # still what decides -- any edit anywhere changes the key and forces re-extraction
+    th = tree_hash()
+    cdir = os.path.join(VERIF, 'build', 'cache', th)
+    for k, job in zip(keys, full):
+        if k in _MEMO:
+            continue
+        cf = os.path.join(cdir, hashlib.sha1(repr(k).encode()).hexdigest() + '.json')
+        if os.path.exists(cf):
+            try:
+                with open(cf) as fh:
+                    u = Unit(job[0], json.load(fh))
+                u.extract_s = 0.0
+                _MEMO[k] = u
+            except (ValueError, KeyError):
+                os.unlink(cf)
     todo = [(k, job) for k, job in zip(keys, full) if k not in _MEMO]
     try:
         with ThreadPoolExecutor(max_workers=workers) as ex:
@@ -215,6 +265,13 @@ def extract(jobs, workers=16):
             u.extract_s = dt
             units[i] = u
             _MEMO[k] = u
+            try:
+                os.makedirs(cdir, exist_ok=True)
+                cf = os.path.join(cdir, hashlib.sha1(repr(k).encode()).hexdigest() + '.json')
+                shutil.copyfile(job[4], cf + '.tmp%d' % os.getpid())
+                os.replace(cf + '.tmp%d' % os.getpid(), cf)
+            except OSError:
+                pass
     finally:
         shutil.rmtree(d, ignore_errors=True)
     return units
